@@ -146,6 +146,8 @@ def run(ctx, rng_name="main"):
         deep = g % 10 == 7
         if deep:
             hist = deep_history(rng)
+        elif g % 10 == 3:
+            hist = gen_graph.descriptive_history(rng)
         sd, info = rev_impl.load(hist)
         if sd is None:
             continue
